@@ -360,12 +360,29 @@ func (ex *Exec) bindSelf(st *State, c *Contract, e *Env) {
 		if len(c.Captures) != len(fn.FreeVars) {
 			ex.abort("STALE-CONTRACT: %s declares %d captures, closure has %d", c.Name, len(c.Captures), len(fn.FreeVars))
 		}
-		for k, b := range c.Captures {
-			fv := fn.FreeVars[k]
+		for _, b := range c.Captures {
+			fv := fn.FreeVars[ex.captureIndex(c, fn, b.Name)]
 			l := st.locOfPointer(st.vals[fv], fv.Type())
 			e.vars[b.Name] = BVal{Cell: &l, Type: fv.Type()}
 		}
 	}
+}
+
+// captureIndex: captured variables are matched by name with the closure's free variables
+func (ex *Exec) captureIndex(c *Contract, fn *ssa.Function, name string) int {
+	if fn == nil {
+		fn = ex.prog.Funcs[c.Target]
+	}
+	if fn == nil {
+		ex.abort("STALE-CONTRACT: closure %s not found", c.Target)
+	}
+	for i, fv := range fn.FreeVars {
+		if fv.Name() == name {
+			return i
+		}
+	}
+	ex.abort("STALE-CONTRACT: closure %s captures no variable named %s", c.Name, name)
+	return -1
 }
 
 func (ex *Exec) run() (err error) {
